@@ -29,9 +29,9 @@ CTagsS == {"since"}
 CNoFaults == {}
 CKnown == {}        \* both deviations are repaired (855d795, 38eeb2b): the exported cases follow the current code
 CAllFaults == {"unbal", "dbl", "empty", "stray", "kv", "unknown", "nocolon", "dupparam", "duptag", "returns2",
-               "paramlate", "pre", "codebefore", "codeafter", "oneline", "noident", "attrs", "opentext", "depann", "deptag"}
+               "paramlate", "pre", "codebefore", "codeafter", "oneline", "noident", "attrs", "opentext", "depann", "deptag", "dupparen"}
 
-CParenFaults == {"unbal", "dbl", "empty", "stray"}
+CParenFaults == {"unbal", "dbl", "empty", "stray", "dupparen"}
 
 CValFaults == {"unknown", "kv", "depann"}
 
